@@ -1,4 +1,4 @@
-\* probing phase of a new transfer, every -B class, one pause; real constants, channel capacities 2
+\* probing phase of a new transfer, every -B class (below / at / above the initial 10240, 1G), one pause; real constants, channel capacities 2
 SPECIFICATION Spec
 CONSTANTS
   Floor = 1024
